@@ -77,6 +77,7 @@ STUB = ['event loop + clock', 'TCP', 'executor', 'OS randomness',
 PROBES = ['success_seen', 'pipelined', 'validator_async',
           'success_with_pending_request', 'probe_before_auth',
           'options_checked', 'honest_admitted', 'honest_rejected',
+          'auth_completed_round_trip',
           'guest_success', 'kbdint_success', 'pk_success', 'pw_success',
           'hostbased_request', 'hostbased_success',
           'pop_restrict', 'agent_used', 'agent_fault_fired', 'cert_offered',
@@ -153,8 +154,17 @@ def gen_plan(rng):
         plan['honest'] = {
             'user': rng.choice(['alice', 'bob']),
             'cred': rng.choice(['password', 'wrong_password', 'key',
-                                'other_key', 'cert', 'bad_cert', 'kbd']),
+                                'other_key', 'cert', 'bad_cert', 'kbd',
+                                'none_needed']),
+            # the application's auth_completed() is a coroutine that needs
+            # an answer of the client (it tries to open a connection back,
+            # which this client refuses)
+            'ac_roundtrip': rng.chance(50),
         }
+
+        if plan['honest']['cred'] == 'none_needed':
+            plan['guest'] = True
+
         return plan
 
     if rng.chance(25):
@@ -215,7 +225,11 @@ def valid_plan(plan):
             return valid_restrict(plan['restrict'])
 
         if 'honest' in plan:
-            return plan['honest']['user'] in ('alice', 'bob')
+            return plan['honest']['user'] in ('alice', 'bob') and \
+                plan['honest']['cred'] in (
+                    'password', 'wrong_password', 'key', 'other_key', 'cert',
+                    'bad_cert', 'kbd', 'none_needed') and \
+                (plan['honest']['cred'] != 'none_needed' or plan['guest'])
 
         if 'hb' in plan and (not isinstance(plan['hb']['trust'], bool) or
                              plan['hb']['rdns'] not in HB_RDNS):
@@ -367,6 +381,20 @@ class AuthServer(RecServer):
     def auth_completed(self):
         self.completed_as = self.conn.get_extra_info('username')
         self.world.event(self.name, 'auth_completed', self.completed_as)
+
+        if (self.plan.get('honest') or {}).get('ac_roundtrip'):
+            async def later():
+                try:
+                    await self.conn.create_connection(
+                        asyncssh.SSHTCPSession, 'status.invalid', 9)
+                except asyncssh.Error:
+                    pass
+
+                self.sim.probes['auth_completed_round_trip'] += 1
+
+            return later()
+
+        return None
 
     def password_auth_supported(self):
         return True
@@ -972,6 +1000,9 @@ def run_honest(world, plan):
         k = key('user_ecdsa256')
         cert = make_cert(k, key('ca_ed25519'), ['someone-else'])
         kw = dict(client_keys=[(k, cert)])
+    elif cred == 'none_needed':
+        user = 'guest'
+        expect = True
     else:
         user = 'kbd'
         kw = dict(kbdint_auth=True, password=None,
@@ -989,6 +1020,19 @@ def run_honest(world, plan):
             res['conn'] = await asyncssh.connect('127.0.0.1', 22, **opts)
         except Exception as exc: # pylint: disable=broad-except
             res['exc'] = exc
+
+        if res['conn'] is not None:
+            # an admitted client is served
+            async def probe():
+                try:
+                    chan, _ = await res['conn'].create_session(
+                        asyncssh.SSHClientSession, 'mycmd')
+                    res['probe'] = 'opened'
+                    chan.close()
+                except (asyncssh.Error, OSError) as exc:
+                    res['probe'] = exc
+
+            res['probe_task'] = sim.track('probe', probe())
 
         await world.gate('done')
 
@@ -1015,6 +1059,15 @@ def run_honest(world, plan):
                 world.violation('unauthorized-success', 'honest client '
                                 'authenticated as %r, server reports %r' %
                                 (user, o.completed_as), sig='honest')
+            elif not sim.loop.capped and res.get('probe') != 'opened':
+                world.violation(
+                    'admitted-client-not-served', 'honest client admitted '
+                    'as %r (%s%s): its session open %s' %
+                    (user, cred, ', auth_completed() waits for an answer of '
+                     'the client' if hon.get('ac_roundtrip') else '',
+                     'was never answered' if 'probe' not in res
+                     else 'failed: %r' % (res['probe'],)),
+                    sig='probe-' + cred)
     else:
         if res['conn'] is not None:
             world.violation('unauthorized-success', 'honest-protocol client '
